@@ -13,7 +13,7 @@ import time
 import vlib
 import c01
 
-OPS = "abfrxznh"
+OPS = "abfrxznhgd"
 
 
 def histories(maxlen):
@@ -32,11 +32,14 @@ def run(ctx):
     corpus = c01.corpus_arg()
     big = ("L1,L4", 4)       # (levels, stride)
     small = ("L4,L5", 1)
+    bigmin = ("L1,L4@min", 4)
     if tier == "quick":
         plan = [(h, p, d, big) for h in histories(1) for p in (0, 1) for d in (None,)] + \
+               [(h, 0, None, bigmin) for h in ("", "d", "g", "a", "r")] + \
                [(h, p, d, small) for h in histories(2) for p in (0, 1) for d in (None, "4")]
     else:
         plan = [(h, p, d, big) for h in histories(2) for p in (0, 1) for d in (None, "3")] + \
+               [(h, p, None, bigmin) for h in histories(1) for p in (0, 1)] + \
                [(h, p, d, small) for h in histories(3) for p in (0, 1) for d in (None, "0", "1", "2", "3", "4", "5", "6")]
     jobs = []
     for h, p, d, (levels, stride) in plan:
@@ -49,7 +52,9 @@ def run(ctx):
         if d is not None:
             env["ORC_DEBUG"] = d
         fn = os.path.join(scratch, "o_%s_%d_%s_%s_%d.txt" % (h or "empty", p, d, levels.replace(",", ""), off))
-        args = [exe, "--levels", levels, "--corpus", corpus, "--stride", str(stride), "--offset", str(off), "--history", h, "--out", fn]
+        args = [exe, "--levels", levels.replace("@min", ""), "--corpus", corpus, "--stride", str(stride), "--offset", str(off), "--history", h, "--out", fn]
+        if levels.endswith("@min"):
+            args.append("--probe-min")		# probes compiled under the smallest flag set of each x86 target
         if p:
             args.append("--poison")
         try:
@@ -148,7 +153,7 @@ def run(ctx):
         "digests_compared": n_digests,
         "explanation": "states = (history, heap traffic, debug level, probe set) combinations, each replayed in fresh processes; history "
                        "alphabet: a compile+keep (avx), b compile+keep (sse), f free oldest kept code, r compile+run+free, x failed compile "
-                       "(no rule), z fatal compile, n compile for neon, h application heap traffic. After each history every probe program "
+                       "(no rule), z fatal compile, n compile for neon, h application heap traffic, g every sys opcode compiled for sse/avx/mmx under the smallest flag set of the target, d the same under the default flags; a second probe mode compiles the probes under the smallest flag sets. After each history every probe program "
                        "(all single-opcode programs incl. float + corpus; corpus + pressure programs for the deeper histories) is compiled "
                        "for sse, avx, mmx, c, c64x-c, neon, altivec, mips; code and listing digests must equal the empty-history baseline. "
                        "In-process: recompile after reset reproduces code and listing; three runs of the same code give identical output.",
